@@ -54,6 +54,7 @@ type MTProto struct {
 	// идентификаторы сообщений, нужны что бы посылать и принимать сообщения.
 	seqNoMutex sync.Mutex
 	seqNo      int32
+	lastMsgID  int64 // msg_id of the last message written, guarded by seqNoMutex too
 
 	// айдишники DC для КОНКРЕТНОГО Приложения и клиента. Может меняться, но фиксирована для
 	// связки приложение+клиент
